@@ -3,6 +3,7 @@
 //   - pkg/grammar/lexer_impl.go with scheduling points at token fetch / lexer-state create / delete
 //   - the virtual packages pkg/verifrt{,/vsync,/vgroup}
 //   - runtime/map.go with the map-iteration start behind a seam (MAPORD)
+//
 // usage: mkoverlay <repo> <verifdir> <outdir>
 package main
 
